@@ -76,7 +76,8 @@ class Alignment:
             self.alignment_block_length,
             self.mapping_quality,
         )
-        self.tags["cg:Z:"] = self.cigar
+        if "cg:Z:" in self.tags:
+            self.tags["cg:Z:"] = self.cigar
         for k in self.tags.keys():
             line += "\t%s%s" % (k, self.tags[k])
         return line
@@ -157,17 +158,19 @@ class GAF:
         is_primary = True
         cigar = ""
 
-        # Check if there are additional tags
+        # Check if there are additional tags (the optional fields follow the 12 mandatory columns)
         tags = {}
-        for k in fields:
-            if re.match("[A-Za-z][A-Za-z0-9]:[AifZHB]:[A-Za-z0-9]+", k):
-                pattern = re.findall(r"([A-Za-z][A-Za-z0-9]:[AifZHB]:)[A-Za-z0-9]+", k)[0]
+        for k in fields[12:]:
+            tag = re.match(r"^([A-Za-z][A-Za-z0-9]:[AifZHB]:)(.*)$", k)
+            if tag:
+                pattern, val = tag.groups()
+                if pattern == "ds:Z:":
+                    # the ds tag is not carried over (see docs)
+                    continue
                 if pattern == "cg:Z:":
-                    val = re.findall(r"[A-Za-z][A-Za-z0-9]:[AifZHB]:([A-Za-z0-9=]+)", k)[0]
                     cigar = val
                     tags[pattern] = val
                 else:
-                    val = re.findall(r"[A-Za-z][A-Za-z0-9]:[AifZHB]:([A-Za-z0-9.]+)", k)[0]
                     if pattern not in tags:
                         tags[pattern] = val
 
